@@ -207,7 +207,7 @@ func main() {
 	// ---- (ii) plans: clone entry points and reports.Render
 	for i := 0; i < *nPlans; i++ {
 		r := root.Fork(uint64(5000000 + i))
-		pc := &planCase{r: r, tab: NewTable(), recs: map[*workflow.Action]*actRec{}}
+		pc := &planCase{r: r, tab: NewTable(), recs: map[*workflow.Action]*actRec{}, PMethods: []float64{0.3, 0.1, 0.5}[i%3]}
 		pc.tg = &TypeGen{r: r, MaxDepth: 1 + i%*maxDepth, PSecure: 0.35, PSecretName: 0.1, AllowArray: i%4 == 3}
 		pc.vg = &ValGen{r: r, PNil: 0.1}
 		pc.build([]float64{0.2, 0.5, 0.9}[i%3])
